@@ -201,7 +201,7 @@ func (h *decHooks) Call(in *sym.Interp, fr *sym.Frame, site ssa.CallInstruction,
 		} else if rs.Len() > 1 {
 			rt = rs
 		}
-		ev := in.Emit(fr, "opaquecall", site, callee.Name(), args, fr.Mem())
+		ev := in.Emit(fr, "opaquecall", site, callee.Name(), canonArgs(callee, args), fr.Mem())
 		if !h.pureOpaque[callee.Name()] {
 			in.Havoc(fr, site, fr.Mem(), args)
 		}
